@@ -189,6 +189,7 @@ def gen_plan(rng, profile: dict, seed: int) -> dict:
         # the history may be stored in a narrower dtype than the model predicts in (the window must then be promoted,
         # never the prediction rounded): with such an input every prediction carries a +0.5 so that a cast would show
         "in_dtype": rng.choice(["float32"] * 8 + ["int32", "float16"]),
+        "consts_reversed": rng.random() < 0.4,
     }
 
 
@@ -236,6 +237,8 @@ def execute(plan: dict, ctx: dict) -> dict:
     cross = tuple((tuple(a), tuple(b)) for a, b in plan["cross"])
     out_order = tuple(tuple(t) for t in plan["out_order"])
     consts = {(k, p): cc for k, p, cd, cc in spec if cc}
+    if plan.get("consts_reversed"):
+        consts = dict(reversed(list(consts.items())))  # the dict describing the constants need not follow the input's order
     site = f"{plan['model_mode']}/{plan['outer']}/in:{plan['in_transport']}"
     W, U, Bv = model_weights(spec, past, plan["wseed"])
     in_dtype = plan.get("in_dtype", "float32")
@@ -290,10 +293,18 @@ def execute(plan: dict, ctx: dict) -> dict:
         return called(x, aux)
 
     aux0 = jnp.zeros(()) if plan["use_aux"] else None
+    x_in = None
     try:
         if plan["outer"] == "none":
-            out, aux = ml.autoregressive_map(recording_model, build_x(0), aux0, past, n, consts)
+            x_in = build_x(0)
+            keys_before = [tuple(t) for t in x_in.keys()]
+            vals_before = {t: np.asarray(v) for t, v in x_in.items()}
+            consts_arg = dict(consts)
+            out, aux = ml.autoregressive_map(recording_model, x_in, aux0, past, n, consts_arg)
             outs = [out]
+            # the caller's objects are inputs, not scratch space
+            if [tuple(t) for t in x_in.keys()] != keys_before or any(not np.array_equal(np.asarray(x_in[t]), vals_before[t]) for t in vals_before) or consts_arg != consts:
+                viol("caller_input_mutated", {"keys_before": [list(t) for t in keys_before], "keys_after": [list(t) for t in x_in.keys()], "constant_fields_after": {str(k): v for k, v in consts_arg.items()}}, site)
         elif plan["outer"] == "filter_jit":
             f = eqx.filter_jit(lambda m, x, a: ml.autoregressive_map(m, x, a, past, n, consts))
             out, aux = f(called if plan["model_mode"] != "jit" else model, build_x(0), aux0)
